@@ -167,8 +167,15 @@ def run(chk):
             got.append(model); keep.append(case)
     want = common.driver(ops)
     def norm(line):
+        # a refusal is a refusal: which non-zero result/reason it carries, and what stands in its transfer-syntax
+        # sub-item, is the acceptor's choice (PS3.8 Table 9-18: "not significant"); the served table has no order
         a, _, t = line.partition(' | ')
-        return a.strip() + ' | ' + ';'.join(sorted(x for x in t.strip().split(';') if x))
+        items = []
+        for x in a.strip().split(';'):
+            if x:
+                i, r, ts = x.split(':')
+                items.append('%s:0:%s' % (i, ts) if r == '0' else '%s:refused' % i)
+        return ';'.join(items) + ' | ' + ';'.join(sorted(x for x in t.strip().split(';') if x))
     for case, w, g in zip(keep, want, got):
         if norm(w) != norm(g):
             chk.broke('correspondence accept', 'model %s\nimpl  %s' % (w[:300], g[:300]), case)
